@@ -15,5 +15,8 @@ open GlueVerif.C14
 #print axioms reorder_preserves_values
 #print axioms update_id_preserves_order
 #print axioms update_id_preserves_values
+#print axioms refusal_exact
+#print axioms refused_changes_nothing
+#print axioms call_refines_spec
 #print axioms update_id_breaks_dependents
 #print axioms parse_print
